@@ -320,7 +320,7 @@ where
         let mut comps = self.components();
         let comp = comps.next_back();
         comp.and_then(|p| {
-            if !p.is_root() {
+            if p.is_normal() || p.is_current() || p.is_parent() {
                 Some(Self::new(comps.as_bytes()))
             } else {
                 None
